@@ -420,7 +420,28 @@ func (w *World) snapTerm() string {
 			rets = append(rets, fmt.Sprintf("(%d%%nat, %s)", c.ID, c.resTerm()))
 		}
 	}
-	return fmt.Sprintf("(%s, %d, %d, %d, %s)", coqList(rets), len(w.app), w.T.NWrites(), w.watchCode(), coqBool(w.doneClosed()))
+	// ... and whose frames have reached the transport so far, in order (the ids [wire_ids] of the model)
+	ws := w.T.Writes()
+	ids := make([]string, len(ws))
+	for i, wr := range ws {
+		ids[i] = coqZ(w.wireID(wr))
+	}
+	return fmt.Sprintf("((%s, %d, %d, %d, %s), %s)", coqList(rets), len(w.app), len(ws), w.watchCode(), coqBool(w.doneClosed()), coqList(ids))
+}
+
+// wireID: the caller id of a Write (99999: not attributable), -1-|seq| for a generic_nack of Watch.
+func (w *World) wireID(wr *WriteRec) int64 {
+	if wr.ByReader && wr.Full && wr.ID == idGenericNack {
+		q := int64(wr.Seq)
+		if q < 0 {
+			q = -q
+		}
+		return -1 - q
+	}
+	if c := w.callOfSeq(wr.Seq); c != nil && len(wr.Data) >= 16 {
+		return int64(c.ID)
+	}
+	return 99999
 }
 
 // callOfSeq: the call whose frame carries that sequence number (world-unique by construction).
